@@ -87,7 +87,50 @@ def instances(tier: str) -> list[dict]:
                 win, bg = sensitive_window(wrnd, nodes, spec, k, force=deep_self_imports(nodes))
                 out.append({"tree": tree, "naming": naming, "nodes": nodes, "window": [list(p) for p in win], "background": [list(p) for p in bg], "spec": spec.as_json()})
 
+    def add_nested_alias(tree, naming, k):
+        # 'anything' alias on a batch that lists a module together with one of its own descendants (direct child, or
+        # two and more levels down), optionally with an unrelated third subject: the batch stands for its top-most
+        # members; every import leaving the top-most subject must be judged and reported, wherever inside it starts
+        nodes = concrete(tree, naming)
+        wrnd = random.Random(runner.seed() * 13 + len(tree) + len(naming))
+        for outer in nodes:
+            for inner in nodes:
+                if not inner.startswith(outer + "."):
+                    continue
+                outside = [n for n in nodes if not related(n, outer)]
+                if not outside:
+                    continue
+                batches = [(outer, inner), (inner, outer)] + [(outer, inner, t) for t in outside[:1]]
+                for S in batches:
+                    for direction in ("import", "imported"):
+                        spec = RuleSpec("should_not", direction, False, "named", S, "named", (), True)
+                        leave = [((x, y) if direction == "import" else (y, x)) for x in nodes if x == inner or x.startswith(inner + ".") for y in outside]
+                        win, bg = sensitive_window(wrnd, nodes, spec, k, force=leave)
+                        out.append({"tree": tree, "naming": naming, "nodes": nodes, "window": [list(p) for p in win], "background": [list(p) for p in bg], "spec": spec.as_json()})
+
+    def add_full_batches(naming, sizes):
+        # the largest batches the property speaks of (3 subjects x 3 objects = 9 pairs, and 3 x 2, 2 x 3), all pairwise
+        # unrelated, either filter kind on either side: six roots with one sub module each and a bystander.  The
+        # window holds one import per (subject, object) pair (sub module -> sub module, which lies in 'named' and in
+        # 'sub modules of' alike) and three imports to / from the bystander; every other pair is absent.
+        nodes = concrete("F6x", naming)
+        roots = [n for n in nodes if "." not in n]
+        by = roots[-1]
+        for ns, no in sizes:
+            S, O = tuple(roots[:ns]), tuple(roots[3 : 3 + no])
+            child = lambda r: next(n for n in nodes if n.startswith(r + "."))  # noqa: E731
+            win = [(child(s_), child(o_)) for s_ in S for o_ in O] + [(child(S[0]), by), (child(S[-1]), by), (by, child(O[0]))]
+            if len(win) < 12:
+                win += [(child(o_), child(s_)) for s_ in S[:1] for o_ in O][: 12 - len(win)]
+            for sk in ("named", "sub"):
+                for ok in ("named", "sub"):
+                    for verb, direction, exc in SHAPES:
+                        spec = RuleSpec(verb, direction, exc, sk, S, ok, O)
+                        out.append({"tree": "F6x", "naming": naming, "nodes": nodes, "window": [list(p) for p in win], "background": [], "spec": spec.as_json()})
+
     if tier == "quick":
+        add_nested_alias("T6d", "neutral", 11)
+        add_full_batches("neutral", [(3, 3)])
         add_windowed("T5e", "neutral", 1, 1, 10)
         add_windowed("T6c", "adv", 1, 1, 10, kinds=("named",))
         add_side_related("T4n", "neutral", 2, 2)
@@ -98,6 +141,11 @@ def instances(tier: str) -> list[dict]:
         add("T5b", "adv", 1, 1, window_imported=12)
         add("F4", "neutral", 2, 2, kinds=("named",))
     else:
+        for t in ("T6d", "T6c", "T5c"):
+            add_nested_alias(t, "neutral", 13)
+        add_nested_alias("T6d", "adv", 13)
+        add_full_batches("neutral", [(3, 3), (3, 2), (2, 3)])
+        add_full_batches("adv", [(3, 3)])
         for t in ("T5e", "T6c", "T6a"):
             add_windowed(t, "neutral", 2, 2, 13)
             add_windowed(t, "adv", 1, 1, 13)
